@@ -37,6 +37,23 @@ Proof. vm_compute. reflexivity. Qed.
 Lemma handlers_counted : List.length operation_handlers = 21.
 Proof. reflexivity. Qed.
 
+(* The whole of process_request - placeholder reset, identity, version, batch - runs under the engine lock
+   (@_synchronize on process_request itself, not on a part of it): the per-request fields of the shared engine
+   object (the ID placeholder among them) cannot be reset by another connection in the middle of a batch.
+   Interleavings themselves are property C10's. *)
+Definition process_request_locked : Prop := existsb (String.eqb "process_request") synchronized_methods = true.
+Lemma process_request_is_locked : process_request_locked.
+Proof. vm_compute. reflexivity. Qed.
+
+(* the placeholder is reset before anything else happens in a request *)
+Definition placeholder_reset_comes_first : Prop :=
+  match lookup_code "process_request" engine_methods with
+  | Some (Seq (SetPh :: _)) => true
+  | _ => false
+  end = true.
+Lemma placeholder_reset_first : placeholder_reset_comes_first.
+Proof. vm_compute. reflexivity. Qed.
+
 (* the analysis does report the shapes the property is about *)
 Example order_flags_late_guard :
   late_raises [("h", Seq [Call "load" Knone; Mut; If (Seq [Raise "h: too late"]) (Seq []); Commit]); ("load", Seq [If (Seq [Raise "load: not found"]) (Seq []); Ret])] ["h"]
